@@ -118,7 +118,7 @@ def run_threadless(case: Dict[str, Any]) -> Dict[str, Any]:
             if tunnel:
                 c.client.send(b'CONNECT %s HTTP/1.1\r\nHost: %s\r\n\r\n' % (hp, hp))
             else:
-                c.client.send(b'GET http://%s/x HTTP/1.1\r\nHost: %s\r\n\r\n' % (hp, hp))
+                c.client.send(b'GET http://%s/x HTTP/1.1\r\nHost: %s\r\n%s\r\n' % (hp, hp, EXTRA_HEADERS[case.get('req_headers', 'none')] if c is main else b''))
             box: Dict[str, Any] = {}
 
             def acc() -> bool:
@@ -510,7 +510,8 @@ def run_threaded(case: Dict[str, Any]) -> Dict[str, Any]:
             client.send(b'GET http://%s/x HTTP/1.1\r\nHos' % hp)
             wait_iters(3)
         else:
-            client.send((b'CONNECT %s HTTP/1.1\r\nHost: %s\r\n\r\n' % (hp, hp)) if tunnel else (b'GET http://%s/x HTTP/1.1\r\nHost: %s\r\n\r\n' % (hp, hp)))
+            client.send((b'CONNECT %s HTTP/1.1\r\nHost: %s\r\n\r\n' % (hp, hp)) if tunnel else
+                        (b'GET http://%s/x HTTP/1.1\r\nHost: %s\r\n%s\r\n' % (hp, hp, EXTRA_HEADERS[case.get('req_headers', 'none')])))
             box: Dict[str, Any] = {}
 
             def acc() -> bool:
@@ -600,6 +601,11 @@ def run_threaded(case: Dict[str, Any]) -> Dict[str, Any]:
             'sample': {'case': case, 'handler_iterations': iters['n']}}
 
 
+# what the first request of a plain-HTTP conversation may carry besides Host: nothing of it exempts the connection from reaping
+EXTRA_HEADERS = {'none': b'', 'keep-alive': b'Connection: keep-alive\r\nKeep-Alive: timeout=600\r\n',
+                 'upgrade-h2c': b'Connection: Upgrade, HTTP2-Settings\r\nUpgrade: h2c\r\nHTTP2-Settings: AAMAAABkAAQAAP__\r\n',
+                 'upgrade-ws': b'Connection: Upgrade\r\nUpgrade: websocket\r\nSec-WebSocket-Key: dGhlIHNhbXBsZSBub25jZQ==\r\nSec-WebSocket-Version: 13\r\n',
+                 'expect': b'Expect: 100-continue\r\n', 'te': b'TE: trailers\r\nConnection: TE\r\n'}
 SCEN = ['silent', 'partial-request', 'http-keepalive', 'tunnel-c2o', 'tunnel-o2c', 'tunnel-both', 'pending-output']
 
 
@@ -614,7 +620,7 @@ def cases(tier: str, seed: int):
         gaps = [round(rng.choice([0.1, 0.5, 0.9, 0.99, 0.999]), 3) for _ in range(ngaps)]
         yield {'seed': seed, 'i': i, 'scenario': scen, 'rig': rigk, 'timeout': T, 'gaps': gaps, 'eps': rng.choice([0.001, 0.5]),
                'busy_neighbour': (rng.choice(['older', 'younger']) if rigk == 'step' and rng.random() < 0.4 and scen != 'pending-output' else False),
-               'flood': rng.choice([600000, 3000000])}
+               'flood': rng.choice([600000, 3000000]), 'req_headers': rng.choice(sorted(EXTRA_HEADERS))}
 
 
 def floors(tier: str) -> Dict[str, int]:
